@@ -84,7 +84,8 @@ def run_task(args):
         out.update(stats=ex.stats.as_dict(), violations=[v.as_dict() for v in ex.violations],
                    inconclusive=[i for i in ex.inconclusive if i], n_inconclusive=ex.n_inconclusive,
                    n_inconclusive_required=ex.n_inconclusive_required, samples=ex.samples,
-                   frontiers=ex.frontiers, exhausted=bool(done), assumptions=sorted(ex.assumptions_used))
+                   frontiers=ex.frontiers, exhausted=bool(done), assumptions=sorted(ex.assumptions_used),
+                   unsupported=list(ex.unsupported), unsupported_unwitnessed=ex.unsupported_unwitnessed)
     except BaseException as e:  # noqa
         out["error"] = "%s: %s\n%s" % (type(e).__name__, e, traceback.format_exc()[-3000:])
     out["wall_s"] = time.time() - t0
@@ -256,6 +257,8 @@ def run_check(pid, tier, seed, only, jobs, write_evidence=True):
                 if len(g["samples"]) < 4:
                     g["samples"].extend(res["samples"][:2])
                 g["exhausted"] = g["exhausted"] and res["exhausted"]
+                if res.get("unsupported_unwitnessed"):
+                    g["errors"].append(res["unsupported"][0] if res["unsupported"] else "unsupported operation")
                 g["assumptions"].update(res["assumptions"])
                 fr = res["frontiers"]
                 rnd.shuffle(fr)
@@ -343,6 +346,9 @@ def run_check(pid, tier, seed, only, jobs, write_evidence=True):
         if v is None and key in reproduced_keys:
             continue            # another obligation's witness for the same key reproduces
         reported.add(key)
+        if v is None and key.startswith("unsupported: "):
+            harness_errors.append("%s: %s (the real code shows no failure on that path's inputs: nothing decided for it)" % (n, key))
+            continue
         if v is None:
             unreplayed.append(dict(obligation=n, key=key, info=str(info)[:300]))
             if ob.required:
